@@ -243,63 +243,83 @@ func runC14Stack(c *Ctx) {
 				bad = append(bad, "a store to the stack's data in Pop does not provably shorten it ("+p.Pos(st.Pos())+")")
 			}
 		}
-		// path check from the non-empty edge: every path to a return passes a block with a shrinking store
-		var emptyEdgeTo *ssa.BasicBlock
-		entry := pop.Blocks[0]
-		if iff, ok := entry.Instrs[len(entry.Instrs)-1].(*ssa.If); ok {
-			// condition: IsEmpty(s) call or len == 0
-			truthEmpty := true
-			cond := iff.Cond
-			if u, ok := cond.(*ssa.UnOp); ok && u.Op == token.NOT {
-				cond, truthEmpty = u.X, false
-			}
-			isEmptyCond := false
-			if call, ok := cond.(*ssa.Call); ok && staticCallee(&call.Call) == isEmpty {
-				isEmptyCond = true
-			}
-			if bo, ok := cond.(*ssa.BinOp); ok && bo.Op == token.EQL {
-				if k, isK := constInt(bo.Y); isK && k == 0 {
-					isEmptyCond = true
-				}
-			}
-			if isEmptyCond {
-				if truthEmpty {
-					emptyEdgeTo = entry.Succs[0]
-				} else {
-					emptyEdgeTo = entry.Succs[1]
-				}
-			}
-		}
-		if emptyEdgeTo == nil {
-			bad = append(bad, "Pop does not start with an emptiness test")
+		// every path from the entry to a return passes a block with a shrinking store, or its branch
+		// conditions prove that the stack was empty (len(data) <= 0)
+		if len(naturalLoops(pop)) > 0 {
+			bad = append(bad, "Pop contains a loop: not decided")
 		} else {
-			var nonEmpty *ssa.BasicBlock
-			for _, s := range entry.Succs {
-				if s != emptyEdgeTo {
-					nonEmpty = s
-				}
-			}
-			seen := map[*ssa.BasicBlock]bool{}
-			var walk func(b *ssa.BasicBlock) bool // true if some path reaches a return without a shrinking store
-			walk = func(b *ssa.BasicBlock) bool {
-				if okStores[b] {
-					return false
-				}
-				if seen[b] {
-					return false
-				}
-				seen[b] = true
-				if _, isRet := b.Instrs[len(b.Instrs)-1].(*ssa.Return); isRet {
-					return true
-				}
-				for _, s := range b.Succs {
-					if walk(s) {
-						return true
+			lenOld := ""
+			var dataLoads []ssa.Value
+			for _, b := range pop.Blocks {
+				for _, ins := range b.Instrs {
+					if ld, ok := ins.(*ssa.UnOp); ok && ld.Op == token.MUL && isDataAddr(ld.X) {
+						ln, _ := bc.lenTerm(ld)
+						lenOld = ln
+						dataLoads = append(dataLoads, ld)
 					}
 				}
-				return false
 			}
-			if nonEmpty != nil && walk(nonEmpty) {
+			type edge struct {
+				cond  ssa.Value
+				truth bool
+			}
+			var path []edge
+			leak := false
+			paths := 0
+			var walk func(b *ssa.BasicBlock)
+			walk = func(b *ssa.BasicBlock) {
+				if leak || paths > 200 || okStores[b] {
+					return
+				}
+				last := b.Instrs[len(b.Instrs)-1]
+				if _, isRet := last.(*ssa.Return); isRet {
+					paths++
+					f := &factSet{}
+					roots := append([]ssa.Value{}, dataLoads...)
+					for _, e := range path {
+						// an emptiness test through the stack's own predicate
+						cond, truth := e.cond, e.truth
+						for {
+							u, ok := cond.(*ssa.UnOp)
+							if !ok || u.Op != token.NOT {
+								break
+							}
+							cond, truth = u.X, !truth
+						}
+						if call, ok := cond.(*ssa.Call); ok && staticCallee(&call.Call) == isEmpty && lenOld != "" {
+							if truth {
+								f.le(lenOld, 0, "", 0, 0)
+							} else {
+								f.le("", 0, lenOld, 0, -1)
+							}
+							continue
+						}
+						bc.addCond(f, e.cond, e.truth, 0)
+						roots = append(roots, e.cond)
+					}
+					if lenOld != "" {
+						f.le("", 0, lenOld, 0, 0)
+					}
+					bc.defFacts(f, roots)
+					if lenOld == "" || !prove(f, lenOld, 0, "", 0) {
+						leak = true
+					}
+					return
+				}
+				if iff, ok := last.(*ssa.If); ok {
+					path = append(path, edge{iff.Cond, true})
+					walk(b.Succs[0])
+					path[len(path)-1].truth = false
+					walk(b.Succs[1])
+					path = path[:len(path)-1]
+					return
+				}
+				for _, sb := range b.Succs {
+					walk(sb)
+				}
+			}
+			walk(pop.Blocks[0])
+			if leak {
 				bad = append(bad, "Pop can return from a non-empty stack without removing its last byte (e.g. a one-byte stack): the splitter then never sees the quote stack empty again and swallows every later separator")
 			}
 		}
@@ -356,6 +376,20 @@ func runC14Stack(c *Ctx) {
 					call, isCall := bo.X.(*ssa.Call)
 					if isCall && staticCallee(&call.Call) == last && bo.Y == eqLast.Params[1] {
 						okCmp = true
+					}
+					// written out: data[len(data)-1] == b
+					for _, pr := range [][2]ssa.Value{{bo.X, bo.Y}, {bo.Y, bo.X}} {
+						ld, isLd := pr[0].(*ssa.UnOp)
+						if !isLd || ld.Op != token.MUL || pr[1] != ssa.Value(eqLast.Params[1]) {
+							continue
+						}
+						if ia, ok := ld.X.(*ssa.IndexAddr); ok {
+							if sub, ok := ia.Index.(*ssa.BinOp); ok && sub.Op == token.SUB {
+								if k, isK := constInt(sub.Y); isK && k == 1 {
+									okCmp = true
+								}
+							}
+						}
 					}
 				}
 			}
